@@ -229,6 +229,18 @@ func (s *FS) Kill() {
 	s.journal = append(s.journal, Entry{Kind: KMark, Note: "kill"})
 }
 
+// ResetFailBudget makes the next n state-changing calls succeed and every later one fail
+// (n < 0: never fail).
+func (s *FS) ResetFailBudget(n int) {
+	s.mu.Lock()
+	defer s.mu.Unlock()
+	if n < 0 {
+		s.FailAfter = -1
+		return
+	}
+	s.FailAfter = s.stateOps + n
+}
+
 // ErrInjected is returned by calls failed on purpose.
 var ErrInjected = errors.New("simfs: injected failure")
 
